@@ -196,9 +196,20 @@ func (t *Indexer) GetBlockByHeight(height uint64) (*lib.BlockResult, lib.ErrorI)
 	if err != nil {
 		return nil, err
 	}
-	// populate cache on read so historical blocks are warm after a restart
-	blockCache.Add(string(hashKey), block)
+	// populate cache on read so historical blocks are warm after a restart; only blocks read from committed
+	// data are cached: while this store has pending index writes, its iterators do not see them, so a block
+	// assembled now may lack the transactions that are about to be committed with it
+	if !t.hasPendingWrites() {
+		blockCache.Add(string(hashKey), block)
+	}
 	return block, nil
+}
+
+// hasPendingWrites() reports whether the indexer's transaction holds operations that are not yet flushed
+func (t *Indexer) hasPendingWrites() bool {
+	t.db.txn.l.Lock()
+	defer t.db.txn.l.Unlock()
+	return len(t.db.txn.ops) != 0
 }
 
 // GetBlockHeaderByHeight() returns the block result without transactions
